@@ -36,6 +36,7 @@ fn plan(prop: &str, o: &mut Out) {
             }
         }
         "C04" => {
+            g_maxlen_fmt(o, &all);
             g_grid(o, &all);
             g_exp_limits(o);
             let c = o.q(3000, 100000);
@@ -108,6 +109,8 @@ fn plan(prop: &str, o: &mut Out) {
         }
         "C09" => {
             g_specials(o);
+            let np = nan_payload_patterns(o);
+            g_on_patterns(o, "roundtrip", &np, &[]);
             let lb: Vec<Vec<u8>> = last_byte_patterns(o).into_iter().filter(|p| p[p.len() - 1] & 0x78 == 0x78).collect();
             g_on_patterns(o, "roundtrip", &lb, &[]);
         }
@@ -133,7 +136,10 @@ fn plan(prop: &str, o: &mut Out) {
             }
             g_on_patterns(o, "to_float", &pats, &["f32", "f64"]);
         }
-        "C14" => g_frag(o, &all),
+        "C14" => {
+            g_frag(o, &all);
+            g_maxlen_fmt(o, &all);
+        }
         "C15" => {
             // the same inputs through every type able to take them; compare.py groups the answers
             let c = o.q(3000, 100000);
